@@ -4,6 +4,7 @@
 #include "fiber_semaphore.h"
 
 #include "fiber_manager.h"
+#include "fiber_verif.h"
 
 int fiber_semaphore_init(fiber_semaphore_t* semaphore, int value) {
   assert(semaphore);
@@ -68,6 +69,7 @@ int fiber_semaphore_post_internal(fiber_semaphore_t* semaphore) {
                                                 memory_order_acquire)) < 0) {
       // another fiber is waiting; attempt to schedule it to take this fiber's
       // place
+      FIBER_VERIF_POINT(FV_SEM_POST_MID, semaphore, 0);
       if (fiber_manager_wake_from_mpmc_queue(fiber_manager_get(),
                                              &semaphore->waiters, 0)) {
         atomic_fetch_add(&semaphore->counter, 1);
